@@ -348,3 +348,105 @@ def solve_real(inst, tab, *, cores=1, shim=False, pool_log=False, order=(1, 0), 
                     out["ops"][f"{t[0]},{t[1]}"] = [digest(o.operator), digest(o.error)]
                     out["arrays"][f"{t[0]},{t[1]}"] = (o.operator.copy(), None if o.error is None else o.error.copy())
     return out
+
+
+# ------------------------------------------------------------------------------------------
+# structure of scale-variation factors (C53) and continuity measurements
+# ------------------------------------------------------------------------------------------
+
+def solve_structure(inst, tab, sv=None, xif=1.0, order=(1, 0)):
+    """Shimmed real solve recording, per evolution part, is_threshold and whether it integrated."""
+    import eko
+    import eko.evolution_operator as evop
+    from eko.runner import operators, parts
+
+    f2t = tokmap(tab)
+    th, op = cards_for(inst, tab, order=order, sv=sv, xif=xif, xgrid=[0.2, 1.0])
+    rec = {"ev": "structure", "ms": list(inst["ms"]), "o": list(inst["o"]), "targets": [list(t) for t in inst["targets"]],
+           "sv": {None: "none", "exponentiated": "expo", "expanded": "expanded"}[sv], "xifOne": bool(xif == 1.0),
+           "err": "", "parts": [], "retrieves": []}
+    saved = (parts.evolve, operators._retrieve, evop.Operator.integrate, evop.Operator.__init__)
+    cur = {}
+
+    def init(self, *a, **kw):
+        saved[3](self, *a, **kw)
+        if type(self) is evop.Operator:
+            cur["op"] = self
+            self._verif_integrated = False
+
+    def integrate(self):
+        self._verif_integrated = True
+        return saved[2](self)
+
+    def evolve(eko_, recipe):
+        cur.pop("op", None)
+        res = saved[0](eko_, recipe)
+        o = cur.get("op")
+        rec["parts"].append({"hdr": hdr_rec(recipe, f2t), "isThreshold": bool(o.is_threshold), "integrated": bool(o._verif_integrated)})
+        return res
+
+    def retrieve(headers, p, pm):
+        rec["retrieves"].append([hdr_rec(h, f2t) for h in headers])
+        return saved[1](headers, p, pm)
+
+    with scratch() as root, shimmed():
+        parts.evolve, operators._retrieve = evolve, retrieve
+        evop.Operator.integrate, evop.Operator.__init__ = integrate, init
+        try:
+            eko.solve(th, op, root / "o.tar")
+        except Exception as ex:  # noqa: BLE001
+            rec["err"] = type(ex).__name__ + ":" + str(ex)[:100]
+        finally:
+            parts.evolve, operators._retrieve, evop.Operator.integrate, evop.Operator.__init__ = saved
+    return rec
+
+
+def _cls(a, b):
+    """ceil(-log10(relative difference)); 99 when bitwise equal."""
+    import math
+
+    d = float(np.max(np.abs(a - b)))
+    if d == 0.0:
+        return 99
+    ref = float(np.max(np.abs(a)))
+    return int(math.floor(-math.log10(d / ref)))
+
+
+def continuity(where, tab_vals, sv, xif, order=(1, 0)):
+    """Operator at a boundary point versus displaced targets in the same patch.
+
+    where: dict(kind, scale (linear), nf, side (+1/-1: direction that stays inside the patch),
+    walls=[3 linear scales], origin=(linear scale, nf))."""
+    from ekobox.cards import example
+    from eko.io import runcards
+    import eko
+    from eko.io.struct import EKO
+
+    th = copy.deepcopy(example.raw_theory())
+    op = copy.deepcopy(example.raw_operator())
+    th["order"] = list(order)
+    th["matching_order"] = [max(order[0] - 1, 0), 0]
+    th["heavy"]["masses"] = [[m, float("nan")] for m in where["walls"]]
+    th["xif"] = xif
+    th["couplings"]["ref"] = (91.2, 5)
+    op["init"] = tuple(where["origin"])
+    s = where["scale"]
+    eps = where["side"]
+    pts = [s, s * (1 + eps * 1e-6) ** 0.5, s * (1 + eps * 1e-7) ** 0.5]
+    op["mugrid"] = [(p, where["nf"]) for p in pts]
+    op["xgrid"] = [0.1, 0.5, 1.0]
+    op["configs"]["evolution_method"] = "truncated" if order[0] > 1 else "iterate-exact"
+    op["configs"]["scvar_method"] = sv
+    op["configs"]["interpolation_polynomial_degree"] = 1
+    rec = {"ev": "continuity", "where": where["kind"], "sv": {None: "none", "exponentiated": "expo", "expanded": "expanded"}[sv],
+           "xifOne": bool(xif == 1.0), "nf": where["nf"], "err": "", "jump": 0, "drift": 0, "order": list(order)}
+    with scratch() as root:
+        try:
+            eko.solve(runcards.TheoryCard.from_dict(th), runcards.OperatorCard.from_dict(op), root / "o.tar")
+            with EKO.read(root / "o.tar") as e:
+                arrs = [e[(p ** 2, where["nf"])].operator.copy() for p in pts]
+            rec["jump"] = _cls(arrs[0], arrs[1])
+            rec["drift"] = _cls(arrs[0], arrs[2])
+        except Exception as ex:  # noqa: BLE001
+            rec["err"] = type(ex).__name__ + ":" + str(ex)[:100]
+    return rec
